@@ -458,6 +458,7 @@ class Filterbank(ABC):
                 {
                     "dm": 0,
                     "nchans": 1,
+                    "fch1": self.header.fch1 + ichan * self.header.foff,
                     "nsamples": tim_len,
                     "tstart": self.header.mjd_after_nsamps(start),
                 },
@@ -764,12 +765,13 @@ class Filterbank(ABC):
                                 "nchans": 1,
                                 "nbits": 32,
                                 "data_type": "time series",
+                                "fch1": self.header.fch1 + chan * self.header.foff,
                                 "tstart": self.header.mjd_after_nsamps(start),
                             },
                             nbits=32,
                         ),
                     )
-                    for filename in batch_files
+                    for filename, chan in zip(batch_files, batch_chans, strict=True)
                 ]
                 for nsamps_r, _, data in self.read_plan(
                     gulp=gulp,
